@@ -476,7 +476,7 @@ func c03r4(r *R) {
 	oS.Check(len(semi) >= 1, "no ';' separator is written")
 	for _, a := range semi {
 		gs := gsOf(a)
-		oS.AtI(a.I).Check(hasGuard(gs, "+("+idx+" != 0)") && hasGuard(gs, "+("+idx+" < builtin.len(p0.Settings))") && len(gs) == 2, "';' is written under %v, want exactly `i != 0` inside the settings loop", gs)
+		oS.AtI(a.I).Check(idxNonZero(gs, idx) && hasGuard(gs, "+("+idx+" < builtin.len(p0.Settings))") && len(gs) == 2, "';' is written under %v, want exactly `i != 0` inside the settings loop", gs)
 	}
 	// ---- WU part
 	oW := r.Ob("C03.R4", "window-update-part").At(m.Pos())
@@ -540,9 +540,10 @@ func c03r4(r *R) {
 	oH.Check(len(hb) >= 1, "no pseudo-header initial (h.Name[1]) is written")
 	for _, a := range hb {
 		gs := gsOf(a)
-		oH.AtI(a.I).Check(hasGuard(gs, "+(2 <= builtin.len("+name+"))") && hasGuard(gs, "+(58 == "+name+"[0])"), "pseudo-header letter is written under %v, want len(Name) >= 2 && Name[0] == ':'", gs)
+		isLenName := func(x string) bool { return x == "builtin.len("+name+")" }
+		oH.AtI(a.I).Check(intRel(gs, isLenName, ">=", 2) && hasGuard(gs, "+(58 == "+name+"[0])"), "pseudo-header letter is written under %v, want len(Name) >= 2 && Name[0] == ':'", gs)
 		for _, g := range gs {
-			ok := g == "+(2 <= builtin.len("+name+"))" || g == "+(58 == "+name+"[0])" || strings.Contains(g, "builtin.len(p0.Headers)") || strings.Contains(g, "builtin.len(p0.Settings)") || strings.Contains(g, minE)
+			ok := intRel([]string{g}, isLenName, ">=", 2) || g == "+(58 == "+name+"[0])" || strings.Contains(g, "builtin.len(p0.Headers)") || strings.Contains(g, "builtin.len(p0.Settings)") || strings.Contains(g, minE)
 			oH.Check(ok, "pseudo-header letter additionally conditional on %s", g)
 		}
 	}
@@ -552,7 +553,7 @@ func c03r4(r *R) {
 		switch {
 		case inPrioLoop(gs):
 			nPC++
-			oP.AtI(a.I).Check(hasGuard(gs, "+("+idx+" != 0)"), "priority ',' is written under %v, want `i != 0`", gs)
+			oP.AtI(a.I).Check(idxNonZero(gs, idx), "priority ',' is written under %v, want `i != 0`", gs)
 		case hasGuardContaining(gs, "+", " < builtin.len(p0.Headers))"):
 			nHC++
 			oH.AtI(a.I).Check(hasGuard(gs, "+phi(false|phi@|true)") && hasGuard(gs, "+(58 == "+name+"[0])"), "pseudo-header ',' is written under %v, want `a pseudo-header was already written`", gs)
@@ -716,4 +717,10 @@ func checkInjectorRow(r *R, rule, canonName, fnName string) {
 			}
 		})
 	}
+}
+
+// idxNonZero: the literals say that the (non-negative) loop index is not zero — `i != 0` or `i > 0`.
+func idxNonZero(gs []string, idx string) bool {
+	is := func(x string) bool { return x == idx }
+	return intRel(gs, is, "!=", 0) || intRel(gs, is, ">", 0)
 }
